@@ -1,5 +1,6 @@
 import NeumannModel.Chain.Props
 import NeumannModel.Chain.Lemmas2
+import NeumannModel.Chain.Lemmas3
 /-
   C16 — property theorems, part 2: restart (`Chain::initialize` over an existing store), `history`, replica
   `apply_block` (rejections, proposer/replica agreement), commit calls under EVERY interleaving (what the
@@ -489,5 +490,43 @@ theorem concurrent_heights_all_interleavings (C : Crypto) (n : Node) (ws : List 
 /-- non-vacuity: the witness interleaving of `concurrent_commit_witness` (the loser's restore wipes the winner's
     block): still exactly one `Ok`, for height 1, and the in-memory height is 1 -/
 example : okHeights witnessRun.2 = [1] ∧ witnessRun.1.chain.height = twoWs.chain.height + 1 := by decide +kernel
+
+/-- CONCURRENT COMMITS ARE VALID UNLESS ONE FAILS LATE.  For EVERY interleaving of the atomic steps of any number of
+    `commit` calls (2-4 or more; conflicting or orthogonal workspaces, auto-merge on or off, workspaces unknown or
+    already finished), started on a chain that satisfies the invariant, with the node's key registered and a clock
+    that is not behind the tip block: if, when the schedule ends, NO call has failed late (no `Chain::append`
+    rejection after the writes were applied, hence no restore of a pre-apply snapshot), then the chain verifies, the
+    invariant holds, and the height is the old height plus the number of `Ok` results — the full conclusion of
+    `ConcurrentCommitsValid`.  So the only way overlapping commits can break the chain is the restore step of a losing
+    commit (`concurrent_commit_witness`); successful overlapping commits never do. -/
+theorem concurrent_commits_valid_unless_late_failure (C : Crypto) (hsc : SignCorrect C) (n : Node) (ws : List Nat)
+    (ts : Nat) (sched : List Nat)
+    (hreg : ∀ r, n.cfg.registry = some r → regLookup r n.cfg.nodeId = some n.cfg.key)
+    (hinv : Inv C n.cfg.registry n.chain)
+    (hts : ∀ t, blockAt n.chain.store n.chain.height = some t → t.header.timestamp ≤ ts) :
+    let r := runSched C sched n (ws.map fun w => Local.init w ts)
+    (∀ l ∈ r.2, ∀ e, l.res ≠ some (.appendFailed e)) →
+      verifyChain C r.1.cfg.registry r.1.chain = none ∧ Inv C r.1.cfg.registry r.1.chain ∧
+      r.1.chain.height = n.chain.height + okCount r.2 := by
+  intro r hno
+  have hwf : ∀ l ∈ ws.map (fun w => Local.init w ts), LocalWF C n.cfg ts l := by
+    intro l hl
+    obtain ⟨w, _, rfl⟩ := List.mem_map.mp hl
+    exact localWF_init C n.cfg ts w
+  obtain ⟨hcfg, hh⟩ := runSched_healthy C hsc n.cfg hreg ts sched n _ rfl hwf (Or.inl ⟨hinv, hts⟩)
+  have hheight := (concurrent_heights_all_interleavings C n ws ts sched).1
+  rcases hh with ⟨hinv', _⟩ | ⟨l, hl, e, he⟩
+  · have hinv'' : Inv C r.1.cfg.registry r.1.chain := by rw [hcfg]; exact hinv'
+    exact ⟨verify_complete C _ _ hinv''.ok, hinv'', hheight⟩
+  · exact absurd he (hno l hl e)
+
+/-- non-vacuity: the interleaving of `concurrent_commit_order_witness` (thread 0 applies, thread 1 commits completely,
+    thread 0 finishes): both calls return `Ok`, none fails late, the chain has two more blocks and verifies
+    (what that witness shows is a different defect: the STORE then disagrees with the replay of the chain) -/
+example : (orderRun.2.all fun l => match l.res with | some (.appendFailed _) => false | _ => true) = true ∧
+    okCount orderRun.2 = 2 ∧
+    orderRun.1.chain.height = sameKeyWs.chain.height + 2 ∧
+    verifyChain drvCrypto orderRun.1.cfg.registry orderRun.1.chain = none := by
+  refine ⟨by decide +kernel, by decide +kernel, by decide +kernel, by decide +kernel⟩
 
 end Neumann.Chain.Props
